@@ -346,7 +346,7 @@ class Interp:
         n_alt = sum(1 for p in parts if isinstance(p, IteV))
         if n_alt > 1 or any(isinstance(p, IteV) and isinstance(p.a, IteV) or isinstance(p, IteV) and isinstance(p.b, IteV)
                             for p in parts):
-            return mkstr([p if not isinstance(p, IteV) else SegStr([OpaqueHole('alternative')]) for p in parts])
+            return mkstr([p if not isinstance(p, IteV) else SegStr([OpaqueHole('alternative', prov_of(p))]) for p in parts])
         for i, p in enumerate(parts):
             if isinstance(p, IteV):
                 a = self._mkstr_ite(parts[:i] + [p.a] + parts[i + 1:])
@@ -370,7 +370,7 @@ class Interp:
             return SegStr([OpaqueHole(x)])
         if isinstance(x, IteV):
             return IteV(x.cond, self.format_value(x.a), self.format_value(x.b))
-        return SegStr([OpaqueHole(x)])
+        return SegStr([OpaqueHole(x, prov_of(x))])
 
     def e_FormattedValue(self, e, env):
         return self.format_value(self.ev(e.value, env))
@@ -502,10 +502,10 @@ class Interp:
             if isinstance(a, tuple) and isinstance(b, tuple):
                 return a + b
             if isinstance(a, Opaque) or isinstance(b, Opaque):
-                return Opaque('concat')
+                return Opaque('concat', prov_of(a, b))
             if (isinstance(a, IteV) and isinstance(b, (str, SegStr, IteV))) or \
                     (isinstance(b, IteV) and isinstance(a, (str, SegStr))):
-                return SegStr([OpaqueHole('text with alternatives')])
+                return SegStr([OpaqueHole('text with alternatives', prov_of(a, b))])
         if isinstance(op, ast.Mult):
             if isinstance(a, (list, str, tuple)) and isinstance(b, int):
                 return a * b
@@ -810,7 +810,7 @@ class Interp:
             from . import builtins_ as B
             return B.call_type(self, f, args, kwargs, node)
         if isinstance(f, Opaque):
-            return Opaque('call')
+            return Opaque('call', f.prov | prov_of(*args) | prov_of(*kwargs.values()))
         if hasattr(f, 'sym_call'):
             return f.sym_call(self, args, kwargs, node)
         raise Raised('TypeError', ln, f"{type(f).__name__} object is not callable", implicit=True)
